@@ -7,6 +7,7 @@ import SlugModel.Remote
 import SlugModel.Pack
 import SlugModel.Bundle
 import SlugModel.Sanitise
+import SlugModel.ManifestWrite
 /-!
 Line-protocol driver: one request per line on stdin, one answer per line on stdout.
 Fields are separated by single spaces; every string is `x<hex of UTF-8 bytes>`.
@@ -300,10 +301,10 @@ def encBState (st : BState) : String :=
   let res := sortStrs (st.resolved.map fun ((r, v), s) => encStr r ++ ":" ++ encStr v ++ ":" ++ encStr s.pkg ++ ":" ++ encStr s.sub)
   let deps := sortStrs (st.deprec.map fun ((r, v), d) => encStr r ++ ":" ++ encStr v ++ ":" ++ encOptPair d)
   let an := sortStrs (st.analyzed.map fun (s, f) => encStr s.pkg ++ ":" ++ encStr s.sub ++ ":" ++ toString f)
-  if st.poisoned then "- - - - " ++ encList an ++ " true"
+  if st.poisoned then "- - - - " ++ encList an ++ " true - -"
   else
   encList dirs ++ " " ++ encList metas ++ " " ++ encList res ++ " " ++ encList deps ++ " " ++ encList an ++ " " ++
-    encBool st.poisoned
+    encBool st.poisoned ++ " " ++ encList ((manifestPkgOrder st).map encStr) ++ " " ++ encList ((manifestRegOrder st).map encStr)
 
 /-- `builder <world> <ops>` → `<results> <log> <dirs> <metas> <resolved> <deprecations> <analysed> <poisoned>` -/
 def handleBuilder (withTraceDiags : Bool) (toks : List String) : String :=
